@@ -53,8 +53,8 @@ func runC09(c *fw.Ctx, idx int) fw.Result {
 	}
 	o, mode := randomUDOpts(r, in)
 	W := len(in.Ref)
-	refTxt := gen.RefFasta("root", in.Ref, gen.PickLineWidth(r, W))
-	qTxt, tTxt := gen.RenderFasta(in.Queries, gen.PickLineWidth(r, W)), gen.RenderFasta(in.Targets, gen.PickLineWidth(r, W))
+	refTxt := noFinalNL(r, gen.RefFasta("root", in.Ref, gen.PickLineWidth(r, W)))
+	qTxt, tTxt := noFinalNL(r, gen.RenderFasta(in.Queries, gen.PickLineWidth(r, W))), noFinalNL(r, gen.RenderFasta(in.Targets, gen.PickLineWidth(r, W)))
 	qCSV, e1 := run.UpdownList(refTxt, qTxt)
 	tCSV, e2 := run.UpdownList(refTxt, tTxt)
 	res.Evals += 2
